@@ -610,6 +610,8 @@ def ctor_cases(tier):
         for unit in ('cm', 'ft'):
             for u in ('file5mm', 'zero'):
                 out.append(mk(unit=unit, bset='mid', user=u, flow=0.01))
+    for u in ('half', 'equal', 'above'):      # requirement above the 1 cm cap
+        out.append(mk(bset='mid', user=u, flow=0.5))
     out.append(mk(unit='ft', lenround=6))
     out.append(mk(unit='ft', lenround=6, user='half', flow=0.01))
     for flow in (0.001, 1e-4, 1e-6):
